@@ -18,15 +18,18 @@ Theorem C19_block_exit_tree_lowering_correct :
 Proof. exact sim_closed. Qed.
 Print Assumptions C19_block_exit_tree_lowering_correct.
 
-(* The implementation's flat pass places the probes where the tree lowering does *except* for D15
-   (CheckSem.tree_tie compares the two on every sampled case outside D15).  D15, known finding: block-exit
-   on an `if` whose then-arm contains a block-like instruction is emitted at the first inner end: with
-   the argument 1 the specification fires 1003 after the event 7, the emitted code fires it before. *)
-Example C19_refuted_D15 :
+(* The implementation's flat pass places the probes where the tree lowering does, for every nesting
+   (C19_emitted_code_simulates_the_probe_semantics below; CheckSem.tree_tie compares the two on every sampled case).
+   D15 was a genuine defect of the pinned tree: the block-exit code of an `if` whose then-arm contains a block-like
+   instruction was emitted at the first inner end.  It is repaired ("fix:" commit in /repo: the pending exit code
+   is keyed by the if's block id); the former witness now satisfies the property: with the argument 1 the
+   specification fires 1003 after the event 7, and so does the emitted code. *)
+Example C19_former_D15_witness_holds :
   let body := [FLocalGet 0; FIf BtEmpty; FBlock BtEmpty; FEnd; FConst 7; FOther 3; FEnd; FEnd] in
   let l := self_l 2 4 [] [] body [(1%nat, MBlockExit, LOG 1003)] 0 false in
-  in_class 15 (self_s 0 l []) = true /\ check (fun _ => true) (self_s 0 l [[1; 0]%Z]) = VDiff.
-Proof. vm_compute. split; reflexivity. Qed.
+  known_classes (self_s 0 l []) = [] /\ check (fun _ => true) (self_s 0 l [[1; 0]; [0; 0]]%Z) = VSame
+  /\ agree_sem (self_s 0 l []) = true.
+Proof. vm_compute. repeat split; reflexivity. Qed.
 
 Example C19_nonvacuous :
   let body := [FLocalGet 0; FIf BtEmpty; FConst 7; FOther 3; FElse; FLocalGet 1; FBrIf 0; FConst 8; FOther 3; FEnd; FEnd] in
@@ -39,8 +42,7 @@ Proof. vm_compute. split; reflexivity. Qed.
    instruction vector with its block stack and the two pending-probe maps) and [emit] the mirror of the encoder's
    plain lowering; the correspondence run ties both to /repo on every check.  For every flat body that parses,
    every flag assignment without replacements in the fragment [okI] (plain instructions are not structural, no
-   semantic-after on branch instructions, no block-exit on an `if` whose then-arm contains a construct: the shapes
-   of D16-D18 and D15), every entry code and exit code X: the code the mirror emits IS the flattening of a tree on
+   semantic-after on branch instructions: the shapes of D16-D18), every entry code and exit code X: the code the mirror emits IS the flattening of a tree on
    which the plain Wasm interpreter reproduces every outcome of the probe-semantics interpreter [exec_fn .. true]
    (results, globals, event trace, traps). *)
 Theorem C19_emitted_code_simulates_the_probe_semantics :
@@ -64,6 +66,10 @@ Theorem C19_tree_tie_follows_from_the_correspondence :
   forall (c : scase) b g g', model (s_l c) = Some (b, g) -> c_obs (s_l c) = Some (b, g') -> tree_tie c = true.
 Proof. exact tree_tie_of_model. Qed.
 Print Assumptions C19_tree_tie_follows_from_the_correspondence.
-(* outside the fragment the equation is false of the faithful mirror (D15) *)
-Example C19_flatten_false_on_D15 : True.
-Proof. pose proof resolve_flatten_false_on_D15. exact I. Qed.
+(* the shape of the former D15 (block-exit on an `if` whose then-arm contains a construct) is inside the theorem:
+   the pending exit code is keyed by the if's own block id *)
+Example C19_flatten_former_D15_witness_holds :
+  frag exF exD15 /\
+  emit (fst (resolve true [] [] 0%N (flatF exF exD15 ++ [(FEnd, exF 10)]) (mkLocals 0 0 [])))
+  = flat (flat_map (lower exF []) exD15) ++ f_before (exF 10) ++ [FEnd].
+Proof. exact resolve_flatten_former_D15_witness_holds. Qed.
